@@ -31,6 +31,12 @@ func mix(a, b uint64) uint64 {
 }
 
 func (s *sched) acc(t *thread, key uintptr, write bool) {
+	s.vcSync(t, key, write)
+	s.accHash(t, key, write)
+}
+
+// accHash is the state-hash part of acc (no vector-clock transfer).
+func (s *sched) accHash(t *thread, key uintptr, write bool) {
 	if !s.hbOn || t == nil {
 		return
 	}
@@ -48,6 +54,15 @@ func (s *sched) acc(t *thread, key uintptr, write bool) {
 
 // accSched records a write performed by the scheduler itself (timer fire).
 func (s *sched) accSched(key uintptr, salt uint64) {
+	if race.on {
+		// over-approximation: what the clock object and the running thread have seen
+		// happens before whatever synchronises on key next
+		o := vjoin(vclone(race.objVC[key]), race.objVC[kClock])
+		if s.cur != nil {
+			o = vjoin(o, s.cur.vc)
+		}
+		race.objVC[key] = o
+	}
 	if !s.hbOn {
 		return
 	}
